@@ -32,7 +32,7 @@ impl Property for Prop {
         "C15"
     }
     fn rule(&self) -> &'static str {
-        "exhaustive: every history of the given depth (quick 4, thorough 5) over a 35-operation alphabet: encap succeeding / failing (buffer too small) and encap_ext succeeding for labels {A6, B6, C3, D3(zero 3-byte), broadcast, explicit re-use}, fragmenting encap for A6 and C3, start packets into a buffer of exactly the header size (B6, broadcast), PDU-too-long failures of encap and encap_ext, a 6-byte label numerically equal to the 3-byte one, a 6-byte label sharing its first three bytes with another, a signalling PDU through encap_ext (labels are compared by kind and bytes, never through the crate's own equality), reset, disable, enable, enable_max(0/1/2/255), the accessor calls set_crc_calculator (an equal calculator) / get_crc_calculator / is_enabled_re_use_label (they must not touch the policy); key = first two operations. random: seeded histories of 300..3000 operations with max-consecutive N in 1..=255 (saturation at 255 exercised by runs of 600 identical labels). The trace automaton reads the label-type bits of every emitted start/complete packet; a run of substituted packets is ended only by an emitted packet carrying a full or broadcast label (not by configuration calls, not by explicit re-use labels, which are not counted either). A history is non-trivial when at least one re-use substitution was observed in it; fingerprint = hash of the operation sequence."
+        "exhaustive: every history of the given depth (quick 4, thorough 5) over a 39-operation alphabet: encap succeeding / failing (buffer too small) and encap_ext succeeding for labels {A6, B6, C3, D3(zero 3-byte), broadcast, explicit re-use}, fragmenting encap for A6 and C3, start packets into a buffer of exactly the header size (B6, broadcast), PDU-too-long failures of encap and encap_ext (65536 bytes, and too long only because of the label), encap_ext with a wrong final mandatory extension, signalling protocol types through plain encap, a 6-byte label numerically equal to the 3-byte one, a 6-byte label sharing its first three bytes with another, a signalling PDU through encap_ext (labels are compared by kind and bytes, never through the crate's own equality), reset, disable, enable, enable_max(0/1/2/255), the accessor calls set_crc_calculator (an equal calculator) / get_crc_calculator / is_enabled_re_use_label (they must not touch the policy); key = first two operations. random: seeded histories of 300..3000 operations with max-consecutive N in 1..=255 (saturation at 255 exercised by runs of 600 identical labels). The trace automaton reads the label-type bits of every emitted start/complete packet; a run of substituted packets is ended only by an emitted packet carrying a full or broadcast label (not by configuration calls, not by explicit re-use labels, which are not counted either). A history is non-trivial when at least one re-use substitution was observed in it; fingerprint = hash of the operation sequence."
     }
     fn gens(&self, cx: &Cx) -> Vec<Gen> {
         let a = alphabet_c15().len() as u64;
